@@ -10,6 +10,7 @@ mod cap;
 mod cli;
 mod dbg;
 mod edit;
+mod evl;
 mod cmd;
 mod prng;
 mod progs;
@@ -106,6 +107,8 @@ fn main() {
         "C14" => cmd::run(&o),
         "C05" => asm::run(&o),
         "C19" => asm::run_seq(&o),
+        "C15" => evl::run_c15(&o),
+        "C17" => evl::run_c17(&o),
         other => {
             eprintln!("unknown property {other}");
             std::process::exit(2);
